@@ -214,7 +214,7 @@ def cop(o):
 
 def cline(l):
     if l is None:
-        return "{| il_res := ILNone; il_ui := []; il_toks := None |}"
+        return "{| il_res := ILNone; il_ui := None; il_toks := None |}"
     if "err" in l:
         res = "(ILErr %s)" % cstr(l["err"])
     else:
@@ -223,7 +223,9 @@ def cline(l):
         if a["a"] == "Item":
             v = "(Some %s)" % ctoken(a["v"])
         res = "(ILOk %s %s)" % (cstr(l["out"]), v)
-    ui = clist("(%s, %s, %s)" % (cN(u[0]), cN(u[1]), UIK[u[2]]) for u in l.get("ui", []))
+    ui = "None"
+    if "ui" in l:
+        ui = "(Some %s)" % clist("(%s, %s, %s)" % (cN(u[0]), cN(u[1]), UIK[u[2]]) for u in l["ui"])
     toks = "None"
     if "toks" in l:
         toks = "(Some %s)" % clist(ctoken(t) for t in l["toks"])
